@@ -544,6 +544,11 @@ func (c *Ctx) doMapUpdate(st *State, fr *Frame, x *ssa.MapUpdate) {
 	v := c.term(fr, x.Value, st)
 	mt := x.Map.Type().Underlying().(*types.Map)
 	c.Oblige(st, fr, x, "nopanic", "nilmap", Not(Eq(m, IntLit(0))), "assignment to entry in nil map")
+	if un, ok := x.Map.(*ssa.UnOp); ok && c.cur != nil && !c.cur.isInit && x.Parent().Name() != "init" {
+		if g, ok := un.X.(*ssa.Global); ok {
+			c.emit(st, fr, x, "access", "global-write", False, "write to an entry of the package-level map "+g.Name()+" outside of package initialisation", false)
+		}
+	}
 	c.checkMapAccess(st, fr, x, x.Map, m, true)
 	c.mapStore(st, m, k, v, mt)
 }
